@@ -1,11 +1,11 @@
 \* Template: bin/check substitutes the @@..@@ fields (checks/c07.py CONFIGS). By hand, e.g.
-\*   sed -e 's/@@NC@@/3/;s/@@OPS@@/2/;s/@@BACKENDS@@/{"consul","etcd","memberlist"}/;s/@@LIMIT@@/10/;s/@@MAXERR@@/1/' \
+\*   sed -e 's/@@NC@@/3/;s/@@OPS@@/2/;s/@@BACKENDS@@/{"consul","etcd","memberlist"}/;s/@@LIMITS@@/{10}/;s/@@MAXERR@@/1/' \
 \*       -e 's/@@SECONDARIES@@/{"none"}/;s/@@DELETE@@/FALSE/;s/@@SAME@@/FALSE/;s/@@NW@@/0/;s/@@EMIT@@/FALSE/;s/@@INV@@/Serial SeenChain NoLostNoPhantom SawCurrent/' MC.cfg > MC_x.cfg
 CONSTANTS
   NC = @@NC@@
   OpsPer = @@OPS@@
   Backends = @@BACKENDS@@
-  Limit = @@LIMIT@@
+  Limits = @@LIMITS@@
   MaxErr = @@MAXERR@@
   Secondaries = @@SECONDARIES@@
   WithDelete = @@DELETE@@
